@@ -231,7 +231,8 @@ def build_object(cfg: dict):
     tab = table(cfg["table"])
     fp = rdrv.flow_properties(tab, cfg["pi"])
     cls = IdealReservoir if cfg["kind"] == "ideal" else SinglePhaseReservoir
-    return cls(cfg["nx"], cfg["pf"], cfg["pi"], fp), fp, tab
+    nx = np.dtype(cfg["nx_dtype"]).type(cfg["nx"]) if cfg.get("nx_dtype") else cfg["nx"]
+    return cls(nx, cfg["pf"], cfg["pi"], fp), fp, tab
 
 
 def level_events(kind: str, fp, time, u: np.ndarray, pf_series, tid: int, flagged: int = 0, max_levels: int = 400,
